@@ -159,43 +159,57 @@ structure ReadAcc where
   hasS : Bool := false
   hasC : Bool := false
 
+/-- `dequeueNextFrame` if the current frame is used up (or there is none) -/
+def RStream.deqIfNeeded (s : RStream) : RStream × List Ev × Bool :=
+  if s.cur.isNone || decide (s.rpif ≥ s.curLen) then s.dequeue else (s, [], false)
+
+def ReadAcc.deqIfNeeded (a : ReadAcc) : ReadAcc × Bool :=
+  if a.s.cur.isNone || decide (a.s.rpif ≥ a.s.curLen) then
+    ({ a with s := a.s.dequeue.1, evs := a.evs ++ a.s.dequeue.2.1 }, a.s.dequeue.2.2)
+  else (a, false)
+
+/-- the stream state after `m` bytes of the current frame were copied out: flow controller told
+(unless a remote reset is already effective), positions advanced, `Abandon` once the reset is effective -/
+def RStream.afterCopy (s : RStream) (m : Nat) : RStream :=
+  let r := s.fc.addBytesRead m
+  let s3 := { s with fc := if s.remoteEff then s.fc else r.1,
+                     queuedMaxStreamData := s.queuedMaxStreamData || (!s.remoteEff && r.2.1),
+                     rpif := s.rpif + m, readPos := s.readPos + m }
+  if s3.remoteEff then { s3 with fc := s3.fc.abandon } else s3
+
+/-- `m := copy(p[bytesRead:], s.currentFrame[s.readPosInFrame:])` and the bookkeeping behind it -/
+def ReadAcc.copyChunk (a : ReadAcc) (n : Nat) : ReadAcc :=
+  let cur := a.s.cur.getD []
+  let m := min (n - a.out.length) (cur.length - a.s.rpif)
+  let r := a.s.fc.addBytesRead m
+  { s := a.s.afterCopy m,
+    evs := a.evs ++ (if a.s.remoteEff then [] else [Ev.fcRead m]) ++
+           (if (a.s.afterCopy m).remoteEff then [Ev.fcAbandon] else []),
+    out := a.out ++ (cur.drop a.s.rpif).take m,
+    hasS := a.hasS || (!a.s.remoteEff && r.2.1), hasC := a.hasC || (!a.s.remoteEff && r.2.2) }
+
 /-- the `for bytesRead < len(p)` loop of `readImpl` -/
 def readLoop : Nat → ReadAcc → Nat → ReadAcc × RStatus
   | 0, a, _ => (a, .ok)
   | fuel + 1, a, n =>
     if a.out.length < n then
-      let needDeq := a.s.cur.isNone || decide (a.s.rpif ≥ a.s.curLen)
-      let (s1, e1, pan) := if needDeq then a.s.dequeue else (a.s, [], false)
-      let a := { a with s := s1, evs := a.evs ++ e1 }
-      if pan then (a, .panic)
-      else if a.s.cur.isNone && decide (a.out.length > 0) then
-        (a, if a.s.shutdown then .shutdown else .ok)
-      else if a.s.shutdown then (a, .shutdown)
-      else if a.s.cancelledLocally || a.s.remoteEff then
-        ({ a with s := { a.s with errorRead := true } }, .cancelled a.s.cancelErr)
-      else if a.s.cur.isNone && !a.s.curIsLast then
+      let a1 := a.deqIfNeeded.1
+      if a.deqIfNeeded.2 then (a1, .panic)
+      else if a1.s.cur.isNone && decide (a1.out.length > 0) then
+        (a1, if a1.s.shutdown then .shutdown else .ok)
+      else if a1.s.shutdown then (a1, .shutdown)
+      else if a1.s.cancelledLocally || a1.s.remoteEff then
+        ({ a1 with s := { a1.s with errorRead := true } }, .cancelled a1.s.cancelErr)
+      else if a1.s.cur.isNone && !a1.s.curIsLast then
         -- park on readChan; the deadline timer fires; dequeueNextFrame; errDeadline
-        let (s2, e2, pan2) := a.s.dequeue
-        let a := { a with s := s2, evs := a.evs ++ e2 }
-        if pan2 then (a, .panic) else (a, .deadline)
+        let a2 : ReadAcc := { a1 with s := a1.s.dequeue.1, evs := a1.evs ++ a1.s.dequeue.2.1 }
+        if a1.s.dequeue.2.2 then (a2, .panic) else (a2, .deadline)
       else
-        let cur := a.s.cur.getD []
-        let m := min (n - a.out.length) (cur.length - a.s.rpif)
-        let chunk := (cur.drop a.s.rpif).take m
-        let (fc1, e3, hs, hc) :=
-          if !a.s.remoteEff then
-            let (fc', hs, hc) := a.s.fc.addBytesRead m
-            (fc', [Ev.fcRead m], hs, hc)
-          else (a.s.fc, [], false, false)
-        let s3 := { a.s with fc := fc1, queuedMaxStreamData := a.s.queuedMaxStreamData || hs,
-                             rpif := a.s.rpif + m, readPos := a.s.readPos + m }
-        let (s4, e4) := if s3.remoteEff then ({ s3 with fc := s3.fc.abandon }, [Ev.fcAbandon]) else (s3, [])
-        let a := { a with s := s4, evs := a.evs ++ e3 ++ e4, out := a.out ++ chunk,
-                          hasS := a.hasS || hs, hasC := a.hasC || hc }
-        if decide (a.s.rpif ≥ cur.length) && a.s.curIsLast then
-          let e5 := (cbList a.s.curDone).map Ev.done
-          ({ a with s := { a.s with cur := none, errorRead := true }, evs := a.evs ++ e5 }, .eof)
-        else readLoop fuel a n
+        let a3 := a1.copyChunk n
+        if decide (a3.s.rpif ≥ a3.s.curLen) && a3.s.curIsLast then
+          ({ a3 with s := { a3.s with cur := none, errorRead := true },
+                     evs := a3.evs ++ (cbList a3.s.curDone).map Ev.done }, .eof)
+        else readLoop fuel a3 n
     else if a.s.remoteEff then
       ({ a with s := { a.s with errorRead := true } }, .cancelled a.s.cancelErr)
     else (a, .ok)
@@ -208,16 +222,43 @@ structure ReadOut where
 
 /-- `ReceiveStream.Read(p)` with `len(p) = n` -/
 def RStream.read (s : RStream) (n : Nat) : ReadOut :=
-  let (a, st) : ReadAcc × RStatus :=
+  let r : ReadAcc × RStatus :=
     if s.curIsLast && s.cur.isNone then ({ s := { s with errorRead := true } }, .eof)
     else if s.cancelledLocally || s.remoteEff then ({ s := { s with errorRead := true } }, .cancelled s.cancelErr)
     else if s.shutdown then ({ s := s }, .shutdown)
     else readLoop (n + 1) { s := s } n
-  let (s', completed) := a.s.isNewlyCompleted
-  let evs := a.evs ++ (if completed then [Ev.completed] else [])
-                   ++ (if a.hasS then [Ev.hasCtrl] else [])
-                   ++ (if a.hasC then [Ev.hasConnData] else [])
-  ⟨s', a.out, st, evs⟩
+  let c := r.1.s.isNewlyCompleted
+  ⟨c.1, r.1.out, r.2,
+   r.1.evs ++ (if c.2 then [Ev.completed] else []) ++ (if r.1.hasS then [Ev.hasCtrl] else [])
+          ++ (if r.1.hasC then [Ev.hasConnData] else [])⟩
+
+/-- the bytes `[readPos, readPos + k)`: the rest of the current frame, then queued frames
+(`frameQueue.Peek`); `none` = not all of them are there yet -/
+def RStream.peekBytes (s : RStream) (cur : Bytes) (k : Nat) : Option Bytes :=
+  let avail := cur.length - s.rpif
+  if k ≤ avail then some ((cur.drop s.rpif).take k)
+  else (s.sorter.peek (s.readPos + avail) (k - avail)).map ((cur.drop s.rpif) ++ ·)
+
+/-- the end of `peekImpl`'s loop body: EOF, or park, be woken by the deadline, dequeue if needed, errDeadline -/
+def RStream.peekBlocked (s : RStream) (evs : List Ev) : ReadOut :=
+  if s.curIsLast || decide (s.readPos ≥ s.finalOffset) then ⟨s, [], .eof, evs⟩
+  else ⟨s.deqIfNeeded.1, [], if s.deqIfNeeded.2.2 then .panic else .deadline, evs ++ s.deqIfNeeded.2.1⟩
+
+/-- `peekImpl` with a current frame `cur` that is not used up -/
+def RStream.peekCur (s : RStream) (cur : Bytes) (n : Nat) (evs : List Ev) : ReadOut :=
+  match s.peekBytes cur n with
+  | some d => ⟨s, d, .ok, evs⟩
+  | none =>
+    if s.curIsLast then ⟨s, cur.drop s.rpif, .eof, evs⟩ else
+    -- the request extends beyond the reliable size of a reset stream
+    match (if s.cancelledRemotely && decide (s.readPos + n > s.reliableSize)
+           then s.peekBytes cur (s.reliableSize - s.readPos) else none) with
+    | some d => ⟨s, d, .cancelled s.cancelErr, evs⟩
+    | none =>
+      -- the request extends beyond the final offset
+      match (if s.readPos + n > s.finalOffset then s.peekBytes cur (s.finalOffset - s.readPos) else none) with
+      | some d => ⟨s, d, .eof, evs⟩
+      | none => s.peekBlocked evs
 
 /-- `ReceiveStream.Peek(b)` with `len(b) = n` -/
 def RStream.peek (s : RStream) (n : Nat) : ReadOut :=
@@ -226,104 +267,72 @@ def RStream.peek (s : RStream) (n : Nat) : ReadOut :=
   else if s.cancelledLocally || s.remoteEff then ⟨s, [], .cancelled s.cancelErr, []⟩
   else if s.shutdown then ⟨s, [], .shutdown, []⟩
   else
-    let needDeq := s.cur.isNone || decide (s.rpif ≥ s.curLen)
-    let (s, evs, pan) := if needDeq then s.dequeue else (s, [], false)
-    if pan then ⟨s, [], .panic, evs⟩ else
-    let blocked : ReadOut :=
-      if s.curIsLast || decide (s.readPos ≥ s.finalOffset) then ⟨s, [], .eof, evs⟩
-      else
-        -- park; wake-up by the deadline timer; dequeue if the current frame is used up; errDeadline
-        let needDeq2 := s.cur.isNone || decide (s.rpif ≥ s.curLen)
-        let (s2, e2, pan2) := if needDeq2 then s.dequeue else (s, [], false)
-        ⟨s2, [], if pan2 then .panic else .deadline, evs ++ e2⟩
-    match s.cur with
-    | none => blocked
-    | some cur =>
-      if s.rpif < cur.length then
-        let avail := cur.length - s.rpif
-        let tail := cur.drop s.rpif
-        if avail ≥ n then ⟨s, tail.take n, .ok, evs⟩ else
-        let offset := s.readPos + avail
-        match s.sorter.peek offset (n - avail) with
-        | some d => ⟨s, tail ++ d, .ok, evs⟩
-        | none =>
-          if s.curIsLast then ⟨s, tail, .eof, evs⟩ else
-          let viaReset : Option ReadOut :=
-            if s.cancelledRemotely && decide (s.readPos + n > s.reliableSize) then
-              let total := s.reliableSize - s.readPos
-              if total ≤ avail then some ⟨s, tail.take total, .cancelled s.cancelErr, evs⟩
-              else match s.sorter.peek offset (total - avail) with
-                | some d => some ⟨s, tail ++ d, .cancelled s.cancelErr, evs⟩
-                | none => none
-            else none
-          match viaReset with
-          | some r => r
-          | none =>
-            let viaFin : Option ReadOut :=
-              if s.readPos + n > s.finalOffset then
-                let total := s.finalOffset - s.readPos
-                if total ≤ avail then some ⟨s, tail.take total, .eof, evs⟩
-                else match s.sorter.peek offset (total - avail) with
-                  | some d => some ⟨s, tail ++ d, .eof, evs⟩
-                  | none => none
-              else none
-            match viaFin with
-            | some r => r
-            | none => blocked
-      else blocked
+    let s1 := s.deqIfNeeded.1
+    let evs := s.deqIfNeeded.2.1
+    if s.deqIfNeeded.2.2 then ⟨s1, [], .panic, evs⟩ else
+    match s1.cur with
+    | none => s1.peekBlocked evs
+    | some cur => if s1.rpif < cur.length then s1.peekCur cur n evs else s1.peekBlocked evs
 
 structure FrameOut where
   s : RStream
   err : Option StreamErr
   evs : List Ev
 
+/-- `handleStreamFrameImpl` after the flow controller accepted the frame -/
+def RStream.acceptFrame (s : RStream) (offset : Nat) (data : Bytes) (fin : Bool) (cb : Option Nat) : FrameOut :=
+  let s1 := if fin then { s with finalOffset := offset + data.length } else s
+  if s1.cancelledLocally then ⟨s1, none, []⟩
+  else
+    let r := s1.sorter.push data offset cb
+    ⟨{ s1 with sorter := r.s },
+     match r.res with
+     | .ok | .dup => none
+     | .tooManyGaps => some .tooManyGaps
+     | .panic => some .panic,
+     r.done.map Ev.done⟩
+
+/-- `completed := s.isNewlyCompleted()` … `s.flowController.Abandon(); s.sender.onStreamCompleted(…)` -/
+def FrameOut.complete (o : FrameOut) (abandon : Bool) : FrameOut :=
+  if o.err = some .panic then o else
+  let c := o.s.isNewlyCompleted
+  if c.2 then
+    ⟨if abandon then { c.1 with fc := c.1.fc.abandon } else c.1, o.err,
+     o.evs ++ (if abandon then [Ev.fcAbandon] else []) ++ [Ev.completed]⟩
+  else ⟨c.1, o.err, o.evs⟩
+
 /-- `handleStreamFrame` -/
 def RStream.handleStreamFrame (s : RStream) (offset : Nat) (data : Bytes) (fin : Bool) (cb : Option Nat) : FrameOut :=
   let maxOffset := offset + data.length
-  let (fc', ferr) := s.fc.updateHighestReceived maxOffset fin
-  let s := { s with fc := fc' }
-  let evs := [Ev.fcUpdate maxOffset fin]
-  let (s, err, evs) : RStream × Option StreamErr × List Ev :=
-    match ferr with
-    | some e => (s, some e, evs)
-    | none =>
-      let s := if fin then { s with finalOffset := maxOffset } else s
-      if s.cancelledLocally then (s, none, evs)
-      else
-        let r := s.sorter.push data offset cb
-        let s := { s with sorter := r.s }
-        let evs := evs ++ r.done.map Ev.done
-        match r.res with
-        | .ok | .dup => (s, none, evs)
-        | .tooManyGaps => (s, some .tooManyGaps, evs)
-        | .panic => (s, some .panic, evs)
-  if err = some .panic then ⟨s, err, evs⟩ else
-  let (s, completed) := s.isNewlyCompleted
-  if completed then ⟨{ s with fc := s.fc.abandon }, err, evs ++ [Ev.fcAbandon, Ev.completed]⟩
-  else ⟨s, err, evs⟩
+  let u := s.fc.updateHighestReceived maxOffset fin
+  let s0 := { s with fc := u.1 }
+  let o : FrameOut := match u.2 with
+    | some e => ⟨s0, some e, []⟩
+    | none => s0.acceptFrame offset data fin cb
+  FrameOut.complete ⟨o.s, o.err, Ev.fcUpdate maxOffset fin :: o.evs⟩ true
+
+/-- `handleResetStreamFrameImpl` after the flow controller accepted the final size -/
+def RStream.acceptReset (s : RStream) (finalSize reliable code : Nat) : FrameOut :=
+  let s1 := { s with finalOffset := finalSize }
+  -- senders are allowed to reduce the reliable size, but frames might have been reordered
+  let s2 := if (!s1.cancelledRemotely && s1.reliableSize == 0) || decide (reliable < s1.reliableSize)
+            then { s1 with reliableSize := reliable } else s1
+  let ab := decide (s2.readPos ≥ s2.reliableSize)
+  let s3 := if ab then { s2 with fc := s2.fc.abandon } else s2
+  let s4 := if s3.cancelledRemotely || s3.cancelledLocally then s3
+            else { s3 with cancelledRemotely := true, cancelErr := some (code, true) }
+  ⟨s4, none, if ab then [Ev.fcAbandon] else []⟩
 
 /-- `handleResetStreamFrame` (RESET_STREAM: `reliable = 0`; RESET_STREAM_AT: `reliable ≤ final`) -/
 def RStream.handleResetStreamFrame (s : RStream) (finalSize reliable code : Nat) : FrameOut :=
-  if s.shutdown then
-    let (s, completed) := s.isNewlyCompleted
-    ⟨s, none, if completed then [Ev.completed] else []⟩
+  if s.shutdown then FrameOut.complete ⟨s, none, []⟩ false
   else
-  let (fc', ferr) := s.fc.updateHighestReceived finalSize true
-  let s := { s with fc := fc' }
-  let evs := [Ev.fcUpdate finalSize true]
-  let (s, err, evs) : RStream × Option StreamErr × List Ev :=
-    match ferr with
-    | some e => (s, some e, evs)
-    | none =>
-      let s := { s with finalOffset := finalSize }
-      let s := if (!s.cancelledRemotely && s.reliableSize == 0) || decide (reliable < s.reliableSize)
-               then { s with reliableSize := reliable } else s
-      let (s, evs) := if s.readPos ≥ s.reliableSize then ({ s with fc := s.fc.abandon }, evs ++ [Ev.fcAbandon]) else (s, evs)
-      if s.cancelledRemotely then (s, none, evs)
-      else if s.cancelledLocally then (s, none, evs)
-      else ({ s with cancelledRemotely := true, cancelErr := some (code, true) }, none, evs)
-  let (s, completed) := s.isNewlyCompleted
-  ⟨s, err, evs ++ (if completed then [Ev.completed] else [])⟩
+    let u := s.fc.updateHighestReceived finalSize true
+    let s0 := { s with fc := u.1 }
+    let o : FrameOut := match u.2 with
+      | some e => ⟨s0, some e, []⟩
+      | none => s0.acceptReset finalSize reliable code
+    FrameOut.complete ⟨o.s, o.err, Ev.fcUpdate finalSize true :: o.evs⟩ false
 
 /-- `CancelRead` -/
 def RStream.cancelRead (s : RStream) (code : Nat) : RStream × List Ev :=
